@@ -176,12 +176,12 @@ theorem C03_visitors_disagree :
     by simp [yieldLine, yieldInStmt, yieldInExpr, Option.orElse],
     by simp [containsYield, containsYieldStmt]⟩
 
-/-- **C03 (dependencies are the named parameters except `self` and `request`, in order; the
-    record carries the file, the `def` line and the end line).** -/
+/-- **C03 (dependencies are the named parameters WITHOUT a default value, except `self` and
+    `request`, in order; the record carries the file, the `def` line and the end line).** -/
 theorem C03_deps (f : Path) (lines : List Chars) (mn : List String) (name : String)
     (decos : List Expr) (args : Args) (ret : Option Expr) (body : List Stmt) (r : Range) (d : Def)
     (h : d ∈ eventDefs (visitFunction f lines mn name decos args ret body r)) :
-    d.deps = (args.all.map (·.name)).filter (fun a => a != "self" && a != "request") ∧
+    d.deps = ((args.all.filter (fun a => !a.hasDefault)).map (·.name)).filter (fun a => a != "self" && a != "request") ∧
     d.file = f ∧ d.line = r.line ∧ d.endLine = r.endLine ∧
     d.yieldLine = yieldLine body ∧ d.returnType = returnTypeOf ret body := by
   rw [eventDefs_visitFunction] at h
@@ -192,11 +192,11 @@ theorem C03_deps (f : Path) (lines : List Chars) (mn : List String) (name : Stri
     subst h
     simp [fixtureDef]
 
-/-- **C03 (test functions request every parameter but `self`).** -/
+/-- **C03 (test functions request every parameter without a default value but `self`).** -/
 theorem C03_test_usages (f : Path) (mn : List String) (name : String) (args : Args) (body : List Stmt) (r : Range)
     (ht : name.startsWith "test_" = true) :
     eventUsages (testEvents f mn name args body r) =
-      eventUsages ((args.all.filter (fun a => a.name != "self")).map (argUsage f)) := by
+      eventUsages ((args.all.filter (fun a => a.name != "self" && !a.hasDefault)).map (argUsage f)) := by
   unfold testEvents
   simp [ht, eventUsages_append, eventUsages]
 
